@@ -48,6 +48,12 @@ func TraverseAST(node ast.Node, env *Pass1) ast.Node {
 			return nil // またはエラーを適切に処理します
 		}
 
+		// 定義が自分自身を参照していると、使用時の展開が終わらなくなります。
+		if expMentionsIdent(evalValueExp, n.Id.Value) {
+			log.Printf("error: EQU definition of '%s' refers to itself: %s", n.Id.Value, evalValueExp.TokenLiteral())
+			return nil
+		}
+
 		// Pass1 のメソッドを使用して環境にマクロを定義します。
 		env.DefineMacro(n.Id.Value, evalValueExp)
 		log.Printf("debug: Defined macro '%s' = %s", n.Id.Value, evalValueExp.TokenLiteral())
@@ -229,6 +235,35 @@ func TraverseAST(node ast.Node, env *Pass1) ast.Node {
 		log.Printf("Unknown AST node type in TraverseAST: %T\n", node)
 		return node // 不明なノードは変更せずに返します
 	}
+}
+
+// expMentionsIdent は、式の中に識別子 name が現れるかどうかを返します。
+func expMentionsIdent(exp ast.Exp, name string) bool {
+	switch e := exp.(type) {
+	case *ast.AddExp:
+		if e.HeadExp != nil && expMentionsIdent(e.HeadExp, name) {
+			return true
+		}
+		for _, t := range e.TailExps {
+			if expMentionsIdent(t, name) {
+				return true
+			}
+		}
+	case *ast.MultExp:
+		if e.HeadExp != nil && expMentionsIdent(e.HeadExp, name) {
+			return true
+		}
+		for _, t := range e.TailExps {
+			if expMentionsIdent(t, name) {
+				return true
+			}
+		}
+	case *ast.ImmExp:
+		if f, ok := e.Factor.(*ast.IdentFactor); ok {
+			return f.Value == name
+		}
+	}
+	return false
 }
 
 // DefineMacro は、メソッドとして定義することにより、Pass1 の ast.Env インターフェースを実装します。
